@@ -3,6 +3,8 @@
 #include "exec_common.h"
 #include "jdmaster.h"
 #include "jdmerge.h"
+#include "jdmainct.h"
+#include "jdsample.h"
 
 /* outdim <w> <h> : R: "ow:oh" = TJSCALED() for each of the 16 scaling factors
  * (jpeg_calc_output_dimensions itself is checked against the same formula in skiphist) */
@@ -199,12 +201,79 @@ done:
   return 1;
 }
 
+
+/* skipst <ss> <w> <h> <prog> <scale_num> <fancy> <ycc> <upm> <seed> <calls: mN|rN|sN ...>
+ * The counters of the read/skip state machine after every call, for Model/SkipSM.lean:
+ * R: "M v H | ret:output_scanline:output_iMCU_row:buffer_full:rowgroup_ctr:next_row_out:rows_to_go ..." read through the
+ * repo's own private headers.  mN = one jpeg_read_scanlines() call for N rows (N may be 0), rN = N calls for one row,
+ * sN = jpeg_skip_scanlines(N).  <upm> = the upsampler the generator expects (0 separate, 1 merged; with the merged one
+ * spare_full is printed in place of next_row_out); configurations that need context rows or use the other upsampler answer "skip". */
+static int op_skipst(toks_t *t)
+{
+  int ss = (int)tl(t, 1), w = (int)tl(t, 2), h = (int)tl(t, 3), prog = (int)tl(t, 4), snum = (int)tl(t, 5), fancy = (int)tl(t, 6), ycc = (int)tl(t, 7), upm = (int)tl(t, 8), merged;
+  unsigned long long seed = (unsigned long long)tll(t, 9);
+  int x, y, i; unsigned char *rgb = (unsigned char *)malloc((size_t)w * h * 3), *jb = NULL, *blk = NULL; size_t js = 0;
+  tjhandle hc = tj3Init(TJINIT_COMPRESS);
+  struct jpeg_decompress_struct d; my_err_t e; int created = 0;
+  for (y = 0; y < h; y++) for (x = 0; x < w; x++) {
+    unsigned r = c08_byte(seed, (unsigned long long)y * w + x);
+    rgb[(y * w + x) * 3] = (unsigned char)((x * 9 + (r & 31)) & 255);
+    rgb[(y * w + x) * 3 + 1] = (unsigned char)((y * 7 + ((r >> 3) & 31)) & 255);
+    rgb[(y * w + x) * 3 + 2] = (unsigned char)(((x ^ y) * 5 + (r >> 5) * 9) & 255);
+  }
+  tj3Set(hc, TJPARAM_SUBSAMP, ss); tj3Set(hc, TJPARAM_QUALITY, 85); tj3Set(hc, TJPARAM_PROGRESSIVE, prog);
+  if (tj3Compress8(hc, rgb, w, 0, h, TJPF_RGB, &jb, &js) < 0) { printf("R skip compress\n"); goto done; }
+  d.err = my_err_init(&e);
+  jpeg_create_decompress(&d); created = 1;
+  if (setjmp(e.jb)) { printf("R err %d\n", e.code); goto done; }
+  jpeg_mem_src(&d, jb, (unsigned long)js);
+  jpeg_read_header(&d, TRUE);
+  d.scale_num = snum; d.scale_denom = 8;
+  d.do_fancy_upsampling = fancy;
+  d.out_color_space = ycc ? d.jpeg_color_space : (d.jpeg_color_space == JCS_GRAYSCALE ? JCS_GRAYSCALE : JCS_RGB);
+  jpeg_start_decompress(&d);
+  merged = ((my_master_ptr)d.master)->using_merged_upsample ? 1 : 0;
+  if (d.upsample->need_context_rows || merged != upm) {
+    printf("R skip %s\n", d.upsample->need_context_rows ? "context" : merged ? "merged" : "separate");
+    goto done;
+  }
+  blk = (unsigned char *)malloc((size_t)64 * d.output_width * d.output_components + 16);
+  {
+    my_main_ptr mp = (my_main_ptr)d.main; my_upsample_ptr up = (my_upsample_ptr)d.upsample;
+    char *out = (char *)malloc(64 + (size_t)t->n * 80); size_t o = 0;
+    o += sprintf(out + o, "%s %d %d %u |", merged ? "merged" : "sep", d.min_DCT_scaled_size, d.max_v_samp_factor, d.output_height);
+    for (i = 10; i < t->n; i++) {
+      int n = atoi(t->tok[i] + 1), k; unsigned ret = 0; JSAMPROW rps[64];
+      if (d.output_scanline >= d.output_height) break;
+      if (n > 64) n = 64;
+      for (k = 0; k < 64; k++) rps[k] = blk + (size_t)k * d.output_width * d.output_components;
+      if (t->tok[i][0] == 's') ret = jpeg_skip_scanlines(&d, (JDIMENSION)n);
+      else if (t->tok[i][0] == 'm') ret = jpeg_read_scanlines(&d, rps, (JDIMENSION)n);
+      else for (k = 0; k < n && d.output_scanline < d.output_height; k++) ret += jpeg_read_scanlines(&d, rps, 1);
+      if (merged) {
+        my_merged_upsample_ptr mu = (my_merged_upsample_ptr)d.upsample;
+        o += sprintf(out + o, " %u:%u:%u:%d:%u:%d:%u", ret, d.output_scanline, d.output_iMCU_row, mp->buffer_full ? 1 : 0,
+                     mp->rowgroup_ctr, mu->spare_full ? 1 : 0, mu->rows_to_go);
+      } else
+      o += sprintf(out + o, " %u:%u:%u:%d:%u:%d:%u", ret, d.output_scanline, d.output_iMCU_row, mp->buffer_full ? 1 : 0,
+                   mp->rowgroup_ctr, up->next_row_out, up->rows_to_go);
+    }
+    printf("R %s\n", out); free(out);
+  }
+  printf("O ok\n");
+done:
+  if (created) jpeg_destroy_decompress(&d);
+  free(blk); free(rgb); tj3Free(jb); tj3Destroy(hc);
+  return 1;
+}
+
 static int dispatch_c08(toks_t *t)
 {
   const char *op = t->tok[0];
   if (!strcmp(op, "outdim")) return op_outdim(t);
   if (!strcmp(op, "tjcrop")) return op_tjcrop(t);
   if (!strcmp(op, "skiphist")) return op_skiphist(t);
+  if (!strcmp(op, "skipst") && t->n >= 10) return op_skipst(t);
   if (!strcmp(op, "smoothhist") && t->n >= 13) {
     /* smoothhist <cut permille> <skiphist arguments> : a progressive stream cut short, so that block smoothing (jdcoefct.c
        decompress_smooth_data) is what produces the pixels, then the same crop / read / skip history against the full decode */
